@@ -135,13 +135,29 @@ def r2_cascade(ctx: Context) -> None:
                 continue
             if kind == "seq":
                 loops = [s for s in walk_scope(srs.node) if isinstance(s, ast.For) and src(s.iter) in (f"self.{attr}", f"self.{public}")]
+                elem_of: dict[int, str] = {}
+                if not loops:
+                    # `for i, sampler in enumerate(self.samplers)`, `for sampler, ... in zip(self.samplers, ...)`: the header read canonically
+                    from ..util import IDX, loop_binding
+                    for s_ in [x for x in walk_scope(srs.node) if isinstance(x, ast.For)]:
+                        try:
+                            benv, _counts = loop_binding(s_.target, s_.iter)
+                        except AnalysisError:
+                            continue
+                        for nm, ve in benv.items():
+                            if src(ve).replace(" ", "") in (f"self.{attr}[{IDX}]", f"self.{public}[{IDX}]"):
+                                loops.append(s_)
+                                elem_of[id(s_)] = nm
                 if not loops and srs.cls is not c:
                     # inherited definition seeds it (checked on the defining class)
                     continue
+                if not loops and _escapes(srs, attr):
+                    raise AnalysisError(f"{srs.loc(srs.node)}: {srs.qualname.split(':')[1]} hands self.{public} to a callable / a deferred construct (callback list, partial, lambda); "
+                                        "whether every element is re-seeded cannot be read")
                 ctx.check(len(loops) >= 1, "R2.cascade", key, f"{c.name} re-seeds every element of {attr}",
                           f"{srs.qualname} does not loop over self.{public}: the samplers keep the seeds they were constructed with", srs, srs.node)
                 for lp in loops:
-                    el = lp.target.id if isinstance(lp.target, ast.Name) else None
+                    el = lp.target.id if isinstance(lp.target, ast.Name) else elem_of.get(id(lp))
                     stores = [s for s in ast.walk(lp) if isinstance(s, ast.Assign) and isinstance(s.targets[0], ast.Attribute) and s.targets[0].attr == "random_state" and src(s.targets[0].value) == el]
                     ok = len(stores) == 1 and _is_fresh_draw(srs, stores[0].value)
                     ctx.check(ok, "R2.fresh-draw", f"{key}:per-element-draw", "each element gets its own fresh draw of the owner's generator, taken inside the loop",
@@ -155,14 +171,20 @@ def r2_cascade(ctx: Context) -> None:
             elif kind == "one":
                 stores = [s for s in walk_scope(srs.node) if isinstance(s, ast.Assign) and src(s.targets[0]) == f"self.{attr}.random_state"]
                 ok = len(stores) == 1 and _is_fresh_draw(srs, stores[0].value)
+                if not stores and _escapes(srs, attr):
+                    raise AnalysisError(f"{srs.loc(srs.node)}: {srs.qualname.split(':')[1]} hands self.{attr} to a callable / a deferred construct; whether it is re-seeded cannot be read")
                 ctx.check(ok, "R2.cascade", key, f"{attr} is re-seeded with a fresh draw", f"{attr} is seeded by `{src(stores[0]) if stores else 'nothing'}`", srs, stores[0] if stores else srs.node)
                 for s in stores:
                     for sn in g.nodes_of(s):
                         p = g.path_avoiding(g.entry, {g.exit}, {sn})
                         ctx.check(p is None, "R2.every-path", f"{key}:every-path", f"every path re-seeds {attr}", f"a path through {srs.qualname} skips re-seeding {attr}", srs, s, path_text(srs, p))
             else:
-                calls = [cl for cl in calls_in(srs.node) if isinstance(cl.func, ast.Attribute) and cl.func.attr == "reset" and src(cl.func.value) == f"self.{attr}"]
+                calls = [cl for cl in calls_in(srs.node, scope_only=False) if isinstance(cl.func, ast.Attribute) and cl.func.attr == "reset" and src(cl.func.value) == f"self.{attr}"]
+                if calls and any(isinstance(x, ast.Lambda) and any(y is calls[0] for y in ast.walk(x)) for x in ast.walk(srs.node)):
+                    raise AnalysisError(f"{srs.loc(srs.node)}: {srs.qualname.split(':')[1]} resets self.{attr} from inside a lambda; when and with which seed cannot be read")
                 ok = len(calls) == 1 and _is_fresh_draw(srs, kwarg(calls[0], "seed"))
+                if not calls and _escapes(srs, attr):
+                    raise AnalysisError(f"{srs.loc(srs.node)}: {srs.qualname.split(':')[1]} hands self.{attr} to a callable / a deferred construct; whether it is reset cannot be read")
                 ctx.check(ok, "R2.cascade", key, f"{attr} is reset with a fresh seed", f"{attr} is reset by `{src(calls[0]) if calls else 'nothing'}`", srs, calls[0] if calls else srs.node)
     ctx.floor("R2", "owners of seedable components", owners, 2)
 
@@ -170,6 +192,36 @@ def r2_cascade(ctx: Context) -> None:
 def _mentions(f, attr: str) -> bool:
     public = attr.lstrip("_")
     return any(isinstance(x, ast.Attribute) and x.attr in (attr, public) and isinstance(x.value, ast.Name) and x.value.id == f.self_name for x in ast.walk(f.node))
+
+
+HARMLESS = ("len", "enumerate", "zip", "range", "print", "str", "repr", "type", "isinstance", "id", "tuple", "list", "reversed", "sorted", "iter")
+
+
+def _escapes(f, attr: str) -> bool:
+    """self.<attr> (or its public spelling) is passed to a call, captured by a lambda or iterated by a comprehension in `f`: it may be re-seeded there."""
+    public = attr.lstrip("_")
+    for x in ast.walk(f.node):
+        if isinstance(x, ast.Attribute) and x.attr in (attr, public) and isinstance(x.value, ast.Name) and x.value.id == f.self_name:
+            cur = getattr(x, "_parent", None)
+            while cur is not None and not isinstance(cur, ast.stmt):
+                if isinstance(cur, ast.Lambda):
+                    return True
+                if isinstance(cur, (ast.ListComp, ast.GeneratorExp, ast.SetComp, ast.DictComp)):
+                    # iterated by a comprehension: an escape only if the element itself is handed on (to a call other than a harmless read, or into a lambda)
+                    evars = {y.id for g_ in cur.generators if any(z is x for z in ast.walk(g_.iter)) for y in ast.walk(g_.target) if isinstance(y, ast.Name)}
+                    elts = [cur.key, cur.value] if isinstance(cur, ast.DictComp) else [cur.elt]
+                    for e_ in elts:
+                        for y in ast.walk(e_):
+                            if isinstance(y, ast.Lambda) and any(isinstance(z, ast.Name) and z.id in evars for z in ast.walk(y)):
+                                return True
+                            if isinstance(y, ast.Call) and (dotted(y.func) or "") not in HARMLESS and any(isinstance(a, ast.Name) and a.id in evars for a in [*y.args, *[k.value for k in y.keywords]]):
+                                return True
+                    break
+                if isinstance(cur, ast.Call) and any(any(y is x for y in ast.walk(a)) for a in [*cur.args, *[k.value for k in cur.keywords]]) \
+                        and (dotted(cur.func) or "") not in HARMLESS:
+                    return True
+                cur = getattr(cur, "_parent", None)
+    return False
 
 
 def _calls_super_srs(f) -> bool:
